@@ -96,6 +96,13 @@ STATUS.update({
  "C10-m3": "patch rebased by hand onto the hand-back fix; same idea: limit checked before the slot wait, nothing re-checked after it",
  "C10-m4": "patch rebased by hand onto the hand-back fix; same idea: the explicit reject of the message taken after the limit is dropped",
 })
+STATUS.update({
+ "C05-m2": "patch context rebased onto the in-memory ownership fix (0c46a3a); unchanged otherwise",
+ "C10-m2": "rebased onto 0c46a3a (the holder record moves together with the processing mark); at HEAD it no longer breaks C10 (fix a29ac05 stops consuming before another consume() is in flight); it still breaks C01 and C03 and is reported by ./check C01 and ./check C03",
+ "C14-m1": "rewritten by hand twice: on top of the one-step requeue fix and of 0c46a3a; same idea: new copy inserted before the held one is removed (via ack)",
+ "C14-m3": "rebased by hand onto 0c46a3a: start() returns every message in 'processing' (anybody's), finish() only its own",
+ "C15-m1": "rebased by hand onto 463dedc: reject() uses the message's due time for every category instead of only for the DELAYED one",
+})
 ROUND2_BASE = "587164b"
 for sid in sorted(os.listdir("/verif/seeded")):
     d = f"/verif/seeded/{sid}"
